@@ -2,6 +2,7 @@
 # usage: runall.sh [quick|thorough] — runs every claimed check, prints one line each.
 cd "$(dirname "$0")"
 tier=${1:-quick}
+export VERIF_ROOT=$(pwd)   # bin/verif defaults to /verif: a run from a snapshot must not write evidence / replays there
 ./run.sh build || exit 2
 rc=0
 for id in $(python3 -c "import json;print(' '.join(c['property_id'] for c in json.load(open('MANIFEST.json'))['checks']))"); do
